@@ -349,6 +349,34 @@ func c12BadSizes(res *core.Result, s *Sess, msize uint32, dotu bool, cm uint32, 
 		}
 		c.Hangup()
 	}
+	// a client that does not wait for Rversion: the Tversion and a complete frame larger than the size being negotiated
+	// (but within the server's own limit) arrive in one segment; the limit negotiated by the first governs the second
+	if smax := s.Srv.Msize; msize >= 24 && msize < smax {
+		for _, total := range []uint32{msize + 1, msize + 150, smax} {
+			if total > smax || total <= msize || total < 40 || total > 1<<20 {
+				continue
+			}
+			c := s.Dial()
+			seq0 := s.Log.Seq()
+			tv := wire.Encode(&wire.Msg{Type: wire.Tversion, Tag: wire.NOTAG, Msize: cm, Version: ver}, dotu)
+			base := len(wire.Encode(&wire.Msg{Type: wire.Tattach, Tag: 10, Fid: 1, Afid: wire.NOFID, Uname: "root", Nuname: 0, Aname: ""}, dotu))
+			att := wire.Encode(&wire.Msg{Type: wire.Tattach, Tag: 10, Fid: 1, Afid: wire.NOFID, Uname: "root", Nuname: 0, Aname: strings.Repeat("p", int(total)-base)}, dotu)
+			_ = c.SendRaw(append(tv, att...))
+			closed := c.WaitClosed(3 * time.Second)
+			res.Evals++
+			res.Sig(fmt.Sprintf("pipelined-oversize|%d|%d", msize, total-msize))
+			d := map[string]interface{}{"negotiation": det, "frame_size": total, "negotiated": msize, "same_segment_as_tversion": true}
+			if !closed {
+				res.Violate("C12;bad-size-kept;pipelined", fmt.Sprintf("a %d-byte frame sent in the same segment as the Tversion that negotiates msize %d did not make the server drop the connection", total, msize), d)
+			}
+			for _, e := range s.Log.Snapshot(seq0) {
+				if e.Kind == "op" && e.Conn == c.ID {
+					res.Violate("C12;bad-size-executed;pipelined", fmt.Sprintf("a %d-byte frame behind the Tversion negotiating msize %d was executed (%s)", total, msize, e.Op), d)
+				}
+			}
+			c.Hangup()
+		}
+	}
 	// exactly msize is a legal frame: the connection survives it
 	if msize >= 64 && msize <= 1<<20 {
 		c := s.Dial()
